@@ -65,8 +65,9 @@ fn is_key_char(c: char) -> bool { c.is_ascii_graphic() && c != ':' }
 pub fn project(t: &mut WTab, text: &str) -> (Vec<Value>, bool) {
     let mut lines = vec![];
     let mut term = true;
-    for raw in text.split_inclusive('\n') {
-        let (line, ended) = match raw.strip_suffix('\n') { Some(l) => (l, true), None => (raw, false) };
+    // (a bare CR ends a line as LF does - the lexer's rule; CR-terminated documents are one concretisation)
+    for raw in text.split_inclusive(|c| c == '\n' || c == '\r') {
+        let (line, ended) = match raw.strip_suffix('\n').or_else(|| raw.strip_suffix('\r')) { Some(l) => (l, true), None => (raw, false) };
         term = ended;
         let first = line.chars().next();
         let rec = if line.is_empty() { json!({"k": "B", "key": 0, "v": 0, "ind": 0, "klen": 0}) }
@@ -182,6 +183,14 @@ pub fn run(case: &Value, _seed: u64) -> Outcome {
         if let Some(ev) = observe(&mut o, &mut t, &text, &s, &feats) {
             if o.sample.is_null() && text.len() > 40 { o.sample = json!({"settings": st, "application": ev["text"]}); }
             events.push(ev);
+        }
+        // the same document with CR as its line break (where the strict reader takes it: comment lines run to the next LF)
+        if map == 0 && !text.contains('#') {
+            let cr = text.replace('\n', "\r");
+            if matches!(guarded("Deb822::from_str", || Deb822::from_str(&cr).is_ok()), Ok(true)) {
+                let mut f2 = feats.clone(); f2.push("cr_line_breaks".into());
+                if let Some(ev) = observe(&mut o, &mut t, &cr, &s, &f2) { events.push(ev); }
+            }
         }
     }
     if !events.is_empty() { o.drift.push(json!({"kind": "wrap_event", "nocap": true, "events": events, "conc": "", "detail": ""})); }
